@@ -6,6 +6,8 @@ import os
 import framework as fw
 from props import h5lib as H
 
+H.FORMS = True      # every event is also read through all argument forms of its accessors
+
 LEVEL = "proof"
 RULE = ("random add histories (<=10 add calls, 0-3 of them fault-injected at one of 11 raise points of "
         "HDF5Writer.add, placed first / between / last; occasional close+reopen in mode 'a') x write-flag "
@@ -15,7 +17,13 @@ RULE = ("random add histories (<=10 add calls, 0-3 of them fault-injected at one
         "per-waveform-list triggers; every file is written with the real writer and read back through "
         "dump (raw h5py), iteration with slice_range None/1/2/3 and f[i] for all i in -n-1..n; a case "
         "is one request on one file, non-trivial when the file has >=2 add calls or a fault; distinct "
-        "= distinct (file, request) pairs")
+        "= distinct (file, request) pairs; further dimensions: require_trigger given as list / tuple / bare string, "
+        "antennas wrapped in 0-2 levels of antenna systems (noise master reached through .antenna), append sessions "
+        "opened with 'a' or 'r+'; every event read is also read through ALL argument forms of its accessors "
+        "(get_particle_info(attr / vertex / direction / interaction_info), flavor / is_nubar / is_neutrino, "
+        "get_rays_info(polarization / emitted_direction / received_direction / dicts), get_waveforms(antenna_id, "
+        "waveform_type incl. 'direct'/'reflected' and the first out-of-range index), get_triggered_components(ray)); "
+        "guard probes: invalid constructor arguments, accessors before the first next(), closed readers / writers")
 LEVEL_TEXT = ("machine-checked Lean 4 theorems (induction over unbounded histories of accepted adds, rejected adds cut "
               "after any bookkeeping step, and append-mode reopens; all event shapes; all option sets that record "
               "particles) about an executable model of HDF5Writer.add and of the reader's index lookup; the model is "
@@ -197,7 +205,10 @@ def oracle_file(spec, d, name="s.h5"):
     """write `spec`, read it back every way, compare with the harness's own bookkeeping.
     -> None or (what, observed, expected)"""
     fn = os.path.join(d, name)
-    b = H.write_file(spec, fn)
+    try:
+        b = H.write_file(spec, fn)
+    except Exception as e:      # noqa: BLE001 - constructor / open / set_detector / close of a valid configuration
+        return ("writing a file with a valid option set raised outside add()", H._tail(e), "file written")
     try:
         exp = b.expected_stream()
         for c, (op, exc) in enumerate(zip(b.call_ops, b.excs)):
@@ -254,6 +265,11 @@ def search(run, deep):
 def replay(run, data):
     inp = data["input"]
     with H.tempdir() as d:
+        if data.get("kind") == "corpus" and inp.get("name") == "guards":
+            for what, obs, exp in guard_probes(d):
+                run.fail_input("corpus", {"name": "guards", "probe": what}, observed=obs, expected=exp,
+                               what="guard `%s` does not reject" % what)
+            return
         if data.get("kind") == "corpus":
             for name, res in _corpus_checks(d, only=inp.get("name")):
                 if res:
@@ -346,8 +362,60 @@ def _corpus_checks(d, only=None):
         yield name, res
 
 
+def guard_probes(d):
+    """rejections and early exits the properties rely on -> list of (what, observed, expected)"""
+    from pyrex.io import File
+    bad = []
+    fn = os.path.join(d, "guard.h5")
+
+    def must_raise(what, fn_, excs):
+        try:
+            fn_()
+        except excs:
+            return
+        except Exception as e:      # noqa: BLE001
+            bad.append((what, H._tail(e), "/".join(x.__name__ for x in excs)))
+            return
+        bad.append((what, "no exception", "/".join(x.__name__ for x in excs)))
+    # constructor: antenna triggers need triggers (the model's optsValid); unknown keys; unknown mode
+    must_raise("File(..., write_triggers=False, write_antenna_triggers=True)",
+               lambda: File(fn, "w", write_triggers=False, write_antenna_triggers=True), (ValueError,))
+    must_raise("File(..., require_trigger=['nonsense'])", lambda: File(fn, "w", require_trigger=["nonsense"]), (ValueError,))
+    must_raise("File(..., require_trigger=('rays', 'nonsense'))", lambda: File(fn, "w", require_trigger=("rays", "nonsense")), (ValueError,))
+    must_raise("File(..., mode 'z')", lambda: File(fn, "z"), (ValueError,))
+    spec = _spec("110101", "F", [_A(np_=2, waves=(2,), rays=(1,)), _A(np_=1, waves=(1,), rays=(2,))])
+    b = H.write_file(spec, fn)
+    f = File(b.fn, "r")
+    must_raise("f[0] on a reader that was never opened", lambda: f[0], (OSError,))
+    f.open()
+    try:
+        it = iter(f)
+        for name, call in (("get_particle_info", lambda: it.get_particle_info()), ("get_rays_info", lambda: it.get_rays_info()),
+                           ("get_waveforms", lambda: it.get_waveforms()), ("triggered", lambda: it.triggered),
+                           ("noise_bases", lambda: it.noise_bases), ("get_triggered_components", lambda: it.get_triggered_components())):
+            must_raise("%s on an iterator before the first next()" % name, call, (ValueError,))
+        sl = f[0:2]
+        must_raise("get_particle_info on a slice iterator before the first next()", lambda: sl.get_particle_info(), (ValueError,))
+        w = File(b.fn, "a")
+        must_raise("add() on a writer that is not open", lambda: w.add(None), (OSError,))
+    finally:
+        f.close()
+    must_raise("len() of a closed reader", lambda: len(f), (OSError,))
+    must_raise("f[0] on a closed reader", lambda: f[0], (OSError,))
+    must_raise("iter() of a closed reader", lambda: iter(f), (OSError,))
+    os.remove(b.fn)
+    return bad
+
+
 def corpus(run):
     ok = True
+    with H.tempdir() as d:
+        for what, obs, exp in guard_probes(d):
+            ok = False
+            run.fail_input("corpus", {"name": "guards", "probe": what}, observed=obs, expected=exp,
+                           what="guard `%s` does not reject" % what)
+        run.case(("corpus", "guards"))
+        run.count("corpus_cases")
     with H.tempdir() as d:
         for name, res in _corpus_checks(d):
             run.case(("corpus", name))
